@@ -154,6 +154,8 @@ void flatcc_emitter_reset(flatcc_emitter_t *E)
     flatcc_emitter_page_t *p = E->front;
 
     if (!E->front) {
+        /* An emit that failed to get its first page has still been counted. */
+        E->used = 0;
         return;
     }
     E->back = E->front;
